@@ -126,6 +126,7 @@ fn string_cfg(ds: &[&str]) -> GenCfg {
         ci_heavy: false,
         idents: vec![],
         sync_only: true,
+        dup_names: false,
     }
 }
 
@@ -236,7 +237,7 @@ fn module_plain(e: &EnumSpec, cfg: Config, nested: bool) -> ModuleSrc {
         }
         e2.groups.retain(|g| !g.is_empty());
     }
-    let name = e2.name.clone();
+    let name = e2.type_name();
     let mut eo = emit::enum_opts(&e2, &name);
     eo.derive_prefix = prefix;
     eo.t_inst = "u8"; // default type of a defaulted parameter: core only
@@ -270,6 +271,7 @@ pub fn run(env: &Env, tier: &str, seed: u64, out: &mut Outcome) {
         let mut specs = corpus(&mut rg, per_class);
         for (i, s) in specs.iter_mut().enumerate() {
             s.name = format!("En{}x{:04}", round, i);
+            s.rust_name = if i % 4 == 0 { String::new() } else { "En".to_string() };
         }
         let mut handles = Vec::new();
         for cfgk in [Config::NoStd, Config::Renamed, Config::Shadowed] {
@@ -332,7 +334,8 @@ pub fn run(env: &Env, tier: &str, seed: u64, out: &mut Outcome) {
                 .iter()
                 .filter_map(|en| specs.iter().find(|s| &s.name == en))
                 .map(|s| {
-                    let eo = emit::enum_opts(s, &s.name);
+                    let tn = s.type_name();
+                    let eo = emit::enum_opts(s, &tn);
                     (s.name.clone(), s.derives.clone(), emit::enum_item(s, &eo).replace("vrt::MyErr", "MyErr"))
                 })
                 .collect();
